@@ -320,3 +320,35 @@ M('c03-merge-overwrites-supplied-keyword', 'C03', 'R11', 'falcon/hooks.py',
 M('c03-merge-stores-wrong-index', 'C03', 'R11', 'falcon/hooks.py',
   "            kwargs[argname] = args[i]\n",
   "            kwargs[argname] = args[i - 1]\n")
+
+# ---- preserving wave 1: R3 reads append()+final reverse() as head insertion; the flips must stay exact
+M('c03-response-stack-head-inserted-and-reversed', 'C03', 'R3', 'falcon/app_helpers.py',
+  "    return tuple(request_mw), tuple(resource_mw), tuple(response_mw)  # type: ignore[return-value]\n",
+  "    response_mw.reverse()\n\n    return tuple(request_mw), tuple(resource_mw), tuple(response_mw)  # type: ignore[return-value]\n")
+M('c03-request-stack-reversed-at-the-end', 'C03', 'R3', 'falcon/app_helpers.py',
+  "    return tuple(request_mw), tuple(resource_mw), tuple(response_mw)  # type: ignore[return-value]\n",
+  "    request_mw.reverse()\n\n    return tuple(request_mw), tuple(resource_mw), tuple(response_mw)  # type: ignore[return-value]\n")
+M2('c03-response-stack-appended-reversed-twice', 'C03', 'R3', [
+    {'file': 'falcon/app_helpers.py', 'old': "                response_mw.insert(0, process_response)  # type: ignore[arg-type]\n",
+     'new': "                response_mw.append(process_response)  # type: ignore[arg-type]\n"},
+    {'file': 'falcon/app_helpers.py', 'old': "    return tuple(request_mw), tuple(resource_mw), tuple(response_mw)  # type: ignore[return-value]\n",
+     'new': "    response_mw.reverse()\n    response_mw.reverse()\n\n    return tuple(request_mw), tuple(resource_mw), tuple(response_mw)  # type: ignore[return-value]\n"}])
+
+# ---- wave 10: R6 the caller's iterable is traversed at most once before it is a list
+M2('c03-add-middleware-chain-scan-then-extend', 'C03', 'R6', [
+    {'file': 'falcon/app.py', 'old': """            try:
+                middleware = list(middleware)  # type: ignore[call-overload]
+            except TypeError:
+""", 'new': """            if not hasattr(middleware, '__iter__'):
+"""},
+    {'file': 'falcon/app.py', 'old': "                        for mc in self._unprepared_middleware + middleware  # type: ignore[operator]\n",
+     'new': "                        for mc in (*self._unprepared_middleware, *middleware)\n"}])
+M('c03-add-middleware-cors-scan-before-listing', 'C03', 'R6', 'falcon/app.py',
+  """            try:
+                middleware = list(middleware)  # type: ignore[call-overload]
+            except TypeError:
+""", """            try:
+                n_cors = sum(isinstance(mc, CORSMiddleware) for mc in middleware)  # type: ignore[union-attr]
+                middleware = list(middleware)  # type: ignore[call-overload]
+            except TypeError:
+""")
